@@ -53,7 +53,45 @@ def run(ctx, *, focus, designs, gens, relevant, rule, liveness=None):
     ]
 
 
+def realpool_part(ctx, mine):
+    """Tier 2: the real Scheduler with real shell processes (script kinds x ways of ending x cores)."""
+    from .. import defs, realpool
+
+    ctx.phase("tier 2: real processes")
+    scns = realpool.scenarios(ctx)
+    recs = pmap(realpool.drive, list(enumerate(scns)), chunk=1)
+    failed = defs.validate(ctx, recs, module="RealPool", cfg="RealPool.cfg", parts=1)
+    byid = {r["id"]: r for r in recs}
+    for rid, cl in failed.items():
+        m = [c for c in cl if c.startswith(mine)]
+        if m:
+            ctx.violation(m, dict(byid[rid]["scn"], kind="realpool"), byid[rid]["obs"])
+    cov = ctx.cov
+    cov["real_process_scenarios"] = len(recs)
+    cov["evaluations"] += len(recs)
+    cov["traces_validated_against_impl"] += len(recs)
+    cov["samples"].append(recs[0])
+    ctx.assumptions.append("tier 2 uses real processes and the real clock; only journal order and drained final states are compared")
+
+
+def replay_real(ctx, path, mine):
+    from .. import defs, realpool
+
+    v = json.load(open(path))
+    rec = realpool.drive((0, {k: v["scenario"][k] for k in ("kind", "how", "cores")}))
+    failed = defs.validate(ctx, [rec], module="RealPool", cfg="RealPool.cfg", parts=1)
+    m = [c for c in failed.get(0, []) if c.startswith(mine)]
+    print(json.dumps(rec["obs"]))
+    if m:
+        print("VIOLATION property=%s replay=%s clauses=%s" % (ctx.pid, path, ",".join(m)))
+        return 1
+    print("replay passes")
+    return 0
+
+
 def replay(ctx, path, focus):
+    if json.load(open(path))["scenario"].get("kind") == "realpool":
+        return replay_real(ctx, path, (focus + "_",))
     v = json.load(open(path))
     s = v["scenario"]
     tr = pooldrive.drive((0, {"cores": s["cores"], "ev": s["generated"]}))
